@@ -203,6 +203,15 @@ def judge(sh, lab, case):
     if hdr != case["header"] or rows != case["rows"]:
         sh.violate("table-modified", case, "render changed the table's header/rows")
     out = io.fetch_output()
+    # the table object has no public accessor for its rows: a modified table shows as a different second render
+    io2 = lab.BufferedIO("", lab.AnsiFormatter(forced=True) if case["ansi"] else lab.PlainFormatter())
+    io2.set_terminal_dimensions(lab.Rectangle(case["width"], 20))
+    try:
+        t.render(io2, case["indent"])
+        if io2.fetch_output() != out:
+            sh.violate("table-modified", case, "a second render of the same table differs from the first (%d vs %d bytes)" % (len(io2.fetch_output()), len(out)))
+    except Exception as e:
+        sh.violate("table-modified", case, "a second render of the same table raised %r" % (e,), classify(case, "raises"))
     if io.fetch_error():
         sh.violate("wrong-stream", case, "render wrote to the error output")
     lines = [visible(l) for l in out.split("\n")]
